@@ -414,6 +414,10 @@ def run_c16(ctx, ck):
     s = ck.run_stream(ctx, "fuzz", 600 if ctx.tier == "quick" else 20000)
     compare(ctx, s, "fuzz: accepted near-miss programs must be well-formed too", lambda k, s: {}, describe_prog,
             lambda k, s: "ok:" in (s["impl"].get(k) or ""), oracle=syntax_oracle)
+    sb = ck.run_stream(ctx, "blocks", 1)
+    compare(ctx, sb, "blocks: every kind of block with every kind of sole statement (dropped values, declarations, nothing)", lambda k, s: {}, describe_prog,
+            lambda k, s: "ok:" in (s["impl"].get(k) or ""), oracle=syntax_oracle)
+    ctx.cov.setdefault("distribution", {}).update(sb["meta"])
 
 
 # ---------------------------------------------------------------- C06
